@@ -39,7 +39,7 @@ Definition so3_Jl (x : vec3) : mat3 :=
 Definition se3_exp (x : vec3 * vec3) : se3elt :=
   (mvmul (so3_Jl (snd x)) (fst x), so3_exp (snd x)).
 
-(* rxso3_Ws: A K + B K^2 + C I, coefficients in four regimes *)
+(* rxso3_Ws: A K + B K^2 + C I, coefficients in four regimes (C = expm1(sigma)/sigma in the code: the same real number) *)
 Definition rxso3_Ws_coef (theta sigma : F) : F * F * F :=
   let sl := eps <? absF sigma in
   let tl := eps <? theta in
@@ -57,11 +57,17 @@ Definition rxso3_Ws_coef (theta sigma : F) : F * F * F :=
        (C - ((b - one) * sigma + a * theta) / c) * theta2_inv, C)
     else
       ((one + (sigma - one) * scale) / sigma2,
-       (half * sigma2 * scale + scale - one - sigma2 * scale) / (sigma2 * sigma), C)
+       (half * sigma2 * scale + scale - one - sigma * scale) / (sigma2 * sigma), C)
   else
     if tl then
       ((one - tcos theta) * theta2_inv, (theta - tsin theta) / (theta2 * theta), C)
     else (half, frac 1 6, C).
+(* history: the K^2 coefficient of the branch theta <= eps < |sigma| as coded before the repair in /repo
+   ("fix: rxso3_Ws B coefficient ..."): last term sigma^2 * scale instead of sigma * scale *)
+Definition rxso3_Ws_B3_old (sigma : F) : F :=
+  let scale := texp sigma in
+  let sigma2 := sigma * sigma in
+  (half * sigma2 * scale + scale - one - sigma2 * scale) / (sigma2 * sigma).
 Definition rxso3_Ws (x : vec3 * F) : mat3 :=
   let '(A, B, C) := rxso3_Ws_coef (vnorm (fst x)) (snd x) in
   let K := skew (fst x) in
